@@ -45,7 +45,9 @@ Lemma handler_of_unfold name :
   match CmdSet.set_handler CmdSet.default_pick name with Some h => Some h | None =>
   match CmdZSet.zset_handler name with Some h => Some h | None =>
   match CmdGeneric.generic_handler name with Some h => Some h | None =>
-  CmdString.string_handler name end end end end end.
+  match CmdString.string_handler name with Some h => Some h | None =>
+  match CmdZRand.zrand_handler CmdZRand.default_zpick name with Some h => Some h | None =>
+  CmdKeyspace.keyspace_handler CmdKeyspace.default_keysource name end end end end end end end.
 Proof.
   unfold handler_of, first_some. cbn [fold_right].
   repeat match goal with |- context [match ?x with _ => _ end] => destruct x end; reflexivity.
